@@ -6,10 +6,15 @@ AST (tuples):
   ('lit',z) ('var',x) ('now',) ('sr',) ('self',) ('bin',op,a,b) ('neg',a) ('let',pat,a,b) ('if',c,t,e) ('mem',a)
   ('delay',n,a,t) ('tup',[e]) ('proj',e,i) ('rec',[(f,e)]) ('fld',e,f) ('lam',[(x,ty)],body) ('app',f,[args])
   ('cnamed',f,[(x,e)]) ('pipe',a,f) ('asg',x,e) ('seq',a,b)
+  ('selfs',shape)            `self` of a function whose return type has that shape (prints as `self`)
+  ('con',tid,tag,arg|None)   constructor number `tag` of the declared sum type tid:  K<tid>_<tag>   K<tid>_<tag>(arg)
+  ('match',scrut,[(mpat,body)])
   pat: ('pv',x) ('pw',) ('pt',[pat]) ('pr',[(f,pat)])
-  types (only used for printing annotations): 'F' | ('T',[ty]) | ('R',[(f,ty)]) | ('Fn',[ty],ty) | None (no annotation)
+  mpat: ('ml',z) ('mw',) ('mc',tid,tag,pat|None) ('mt',[mpat])
+  shape: 'N' | ('st',[shape]) | ('sr',[(f,shape)]) | ('ss',tid,[shape|None])      (Lmmx.Syntax.shape)
+  types (only used for printing annotations): 'F' | ('T',[ty]) | ('R',[(f,ty)]) | ('Fn',[ty],ty) | ('S',tid) | None (no annotation)
   program: dict(globals=[('fun',name,[(x,ty,default|None)],body,ret_ty|None) | ('glet',pat,e)], inputs=[x],
-                lets=[(pat,e)], outs=[e])
+                lets=[(pat,e)], outs=[e], types=[(tid,[payload ty|None])])      (`types` may be missing: no sum types)
 Identifiers are ints.  Variables print as v<n>, functions as f<n>; record fields are ints printing as FIELD_NAMES[n],
 whose alphabetical order is the numeric order (the canonical order of record literals)."""
 import json, os, subprocess
@@ -32,6 +37,14 @@ def field(f):
     return FIELD_NAMES[f]
 
 
+def tname(t):
+    return "T%d" % t
+
+
+def cname(t, tag):
+    return "K%d_%d" % (t, tag)
+
+
 def is_fun_id(p, x):
     return x in p.get('_funs', ())
 
@@ -47,6 +60,23 @@ def sx_pat(p):
     if k == 'pt': return "(pt %s)" % " ".join(sx_pat(q) for q in p[1])
     if k == 'pr': return "(pr %s)" % " ".join("(%d %s)" % (f, sx_pat(q)) for f, q in sorted(p[1]))
     raise ValueError(p)
+
+
+def sx_shape(sh):
+    if sh == 'N': return "N"
+    if sh[0] == 'st': return "(st %s)" % " ".join(sx_shape(x) for x in sh[1])
+    if sh[0] == 'sr': return "(sr %s)" % " ".join("(%d %s)" % (f, sx_shape(x)) for f, x in sorted(sh[1], key=lambda fx: field(fx[0])))
+    if sh[0] == 'ss': return "(ss %d %s)" % (sh[1], " ".join("-" if x is None else sx_shape(x) for x in sh[2]))
+    raise ValueError(sh)
+
+
+def sx_mpat(m):
+    k = m[0]
+    if k == 'ml': return "(ml %d)" % m[1]
+    if k == 'mw': return "mw"
+    if k == 'mc': return "(mc %d)" % m[2] if m[3] is None else "(mc %d %s)" % (m[2], sx_pat(m[3]))
+    if k == 'mt': return "(mt %s)" % " ".join(sx_mpat(x) for x in m[1])
+    raise ValueError(m)
 
 
 def sx(e):
@@ -71,6 +101,9 @@ def sx(e):
     if k == 'pipe': return "(pipe %s %s)" % (sx(e[1]), sx(e[2]))
     if k == 'asg': return "(asg %d %s)" % (e[1], sx(e[2]))
     if k == 'seq': return "(seq %s %s)" % (sx(e[1]), sx(e[2]))
+    if k == 'selfs': return "(selfs %s)" % sx_shape(e[1])
+    if k == 'con': return "(con %d %d)" % (e[1], e[2]) if e[3] is None else "(con %d %d %s)" % (e[1], e[2], sx(e[3]))
+    if k == 'match': return "(match %s %s)" % (sx(e[1]), " ".join("(%s %s)" % (sx_mpat(m), sx(b)) for m, b in e[2]))
     raise ValueError(e)
 
 
@@ -95,7 +128,17 @@ def pp_ty(t):
     if t[0] == 'T': return "(" + ", ".join(pp_ty(x) for x in t[1]) + ")"
     if t[0] == 'R': return "{" + ", ".join("%s:%s" % (field(f), pp_ty(x)) for f, x in t[1]) + "}"
     if t[0] == 'Fn': return "(" + ", ".join(pp_ty(x) for x in t[1]) + ")->" + pp_ty(t[2])
+    if t[0] == 'S': return tname(t[1])
     raise ValueError(t)
+
+
+def pp_mpat(m):
+    k = m[0]
+    if k == 'ml': return "%d" % m[1]
+    if k == 'mw': return "_"
+    if k == 'mc': return cname(m[1], m[2]) + ("" if m[3] is None else "(" + pp_pat(m[3]) + ")")
+    if k == 'mt': return "(" + ", ".join(pp_mpat(x) for x in m[1]) + ")"
+    raise ValueError(m)
 
 
 def pp_pat(p, shuffle=None):
@@ -137,7 +180,12 @@ class PP:
         if k == 'var': return self.name(e[1])
         if k == 'now': return "now"
         if k == 'sr': return "samplerate"
-        if k == 'self': return "self"
+        if k in ('self', 'selfs'): return "self"
+        if k == 'con': return cname(e[1], e[2]) + ("" if e[3] is None else "(" + self.e(e[3], ind) + ")")
+        if k == 'match':
+            arms = ["%s => %s" % (pp_mpat(m), "{ " + self.block(b, ind + "    ") + " }" if b[0] in ('let', 'seq', 'asg') else self.e(b, ind + "    "))
+                    for m, b in e[2]]
+            return "(match %s {\n%s    %s\n%s  })" % (self.e(e[1], ind), ind, (",\n%s    " % ind).join(arms), ind)
         if k == 'bin':
             if e[1] in ('min', 'max'):
                 return "%s(%s, %s)" % (e[1], self.e(e[2], ind), self.e(e[3], ind))
@@ -168,7 +216,8 @@ class PP:
         """statement sequence: lets / assignments / sequenced expressions on their own lines"""
         k = e[0]
         if k == 'let':
-            return "let %s = %s\n%s" % (pp_pat(e[1], self.shuffled), self.e(e[2], ind), ind) + self.block(e[3], ind)
+            # a record pattern on `self` is printed in canonical order: the compilers bind its fields POSITIONALLY (finding S1)
+            return "let %s = %s\n%s" % (pp_pat(e[1], None if e[2][0] == 'selfs' else self.shuffled), self.e(e[2], ind), ind) + self.block(e[3], ind)
         if k == 'seq':
             return self.stmt(e[1], ind) + "\n" + ind + self.block(e[2], ind)
         if k == 'asg':
@@ -188,6 +237,9 @@ def fun_ids(p):
 def pp_prog(p, rng=None):
     pr = PP(fun_ids(p), rng)
     out = []
+    for tid, ctors in p.get('types', []):
+        out.append("type %s = %s" % (tname(tid), " | ".join(cname(tid, i) + ("" if t is None else "(" + pp_ty(t) + ")")
+                                                            for i, t in enumerate(ctors))))
     for g in p['globals']:
         if g[0] == 'fun':
             _, name, params, body, ret = g
@@ -242,6 +294,11 @@ def subexprs(e):
         for a in e[2]: yield from subexprs(a)
     elif k in ('pipe', 'seq'): yield from subexprs(e[1]); yield from subexprs(e[2])
     elif k == 'asg': yield from subexprs(e[2])
+    elif k == 'con':
+        if e[3] is not None: yield from subexprs(e[3])
+    elif k == 'match':
+        yield from subexprs(e[1])
+        for _, b in e[2]: yield from subexprs(b)
 
 
 def all_bodies(p):
@@ -259,6 +316,12 @@ def all_bodies(p):
         yield e
 
 
+def mpat_vars(m):
+    if m[0] == 'mc' and m[3] is not None: return pat_vars(m[3])
+    if m[0] == 'mt': return [x for s in m[1] for x in mpat_vars(s)]
+    return []
+
+
 def pat_kinds(q):
     yield q[0]
     if q[0] == 'pt':
@@ -270,7 +333,9 @@ def pat_kinds(q):
 def features(p):
     f = {"nodes": 0, "lam": 0, "app_closure": 0, "app_direct": 0, "pipe": 0, "cnamed": 0, "asg": 0, "seq": 0, "tup": 0, "proj": 0,
          "rec": 0, "fld": 0, "pat_tuple": 0, "pat_record": 0, "self": 0, "mem": 0, "delay": 0, "if": 0, "fun_as_value": 0,
-         "defaults": 0, "global_lets": 0}
+         "defaults": 0, "global_lets": 0, "con": 0, "match": 0, "match_int": 0, "match_sum": 0, "match_tuple": 0, "match_arms": 0,
+         "match_stateful_arm": 0, "match_payload_binders": 0, "selfs": 0, "selfs_tuple": 0, "selfs_record": 0, "selfs_sum": 0,
+         "sum_types": len(p.get('types', []))}
     funs = set(fun_ids(p))
     for g in p['globals']:
         if g[0] == 'fun':
@@ -293,8 +358,19 @@ def features(p):
                 if s[1][0] == 'var' and s[1][1] in funs: f["app_direct"] += 1
                 else: f["app_closure"] += 1
                 f["fun_as_value"] += sum(1 for a in s[2] if a[0] == 'var' and a[1] in funs)
-            if k == 'pipe':
-                f["fun_as_value"] += 0
+            if k == 'selfs':
+                f["selfs_" + {'st': 'tuple', 'sr': 'record', 'ss': 'sum'}.get(s[1][0] if s[1] != 'N' else 'N', 'tuple')] += 1
+            if k == 'match':
+                f["match_arms"] += len(s[2])
+                kinds = {m[0] for m, _ in s[2]}
+                if 'mt' in kinds: f["match_tuple"] += 1
+                elif 'mc' in kinds: f["match_sum"] += 1
+                else: f["match_int"] += 1
+                for m, b in s[2]:
+                    f["match_payload_binders"] += len(mpat_vars(m))
+                    if any(x[0] in ('mem', 'delay', 'self', 'selfs') or
+                           (x[0] == 'app' and x[1][0] == 'var' and x[1][1] in funs) for x in subexprs(b)):
+                        f["match_stateful_arm"] += 1
             if k == 'let':
                 for kk in pat_kinds(s[1]):
                     if kk == 'pt': f["pat_tuple"] += 1
@@ -306,7 +382,7 @@ def features(p):
 # runners
 # ------------------------------------------------------------------------------------------------
 OCAML = [("lmmx_drv", ["lmmx_model"], "ocaml/lmmx_drv.ml")]
-HARNESS = [("lang", ["lmmm_run"], True)]
+HARNESS = [("lang", ["lmmm_run"], True), ("lang", ["bc_dump"], True)]
 EXTRACT_TARGET = "theories/Extract/LmmxExtract.vo"
 FUEL = 400
 
@@ -386,6 +462,8 @@ def backend_rows(b, n):
     """('ok', [[floats]..]) | ('compile', msg) | ('panic', t, msg) | ('short', t)"""
     if b is None:
         return ('missing',)
+    if 'died' in b:
+        return ('crash', b['died'])
     if 'samples' not in b:
         return ('compile', str(b.get('compile') or b.get('compile_panic'))[:300])
     rows = []
@@ -415,6 +493,8 @@ def binders(e):
     for s in subexprs(e):
         if s[0] == 'let': out.update(pat_vars(s[1]))
         if s[0] == 'lam': out.update(x for x, _ in s[1])
+        if s[0] == 'match':
+            for m, _ in s[2]: out.update(mpat_vars(m))
     return out
 
 
@@ -501,11 +581,15 @@ def bodies_with_self(p):
 
 def proj_class(p):
     """class PROJ (finding C01/F46 and its relatives): a tuple projection / record field used DIRECTLY as an operand of a
-    comparison, as the condition or as the value of an arm of an `if`, or as the result of a function / lambda / dsp output"""
+    comparison, as the condition or as the value of an arm of an `if`, as the value of an arm of a `match` (WASM: the OTHER
+    arms then give 0.0), as the payload of a constructor (WASM stores the address), or as the result of a function / lambda /
+    dsp output"""
     for b in local_roots(p):
         for s in subexprs(b):
             if s[0] == 'bin' and s[1] in CMP_OPS and (is_projection(tail_of(s[2])) or is_projection(tail_of(s[3]))): return True
             if s[0] == 'if' and (is_projection(tail_of(s[1])) or is_projection(tail_of(s[2])) or is_projection(tail_of(s[3]))): return True
+            if s[0] == 'match' and any(is_projection(tail_of(b)) for _, b in s[2]): return True
+            if s[0] == 'con' and s[3] is not None and is_projection(tail_of(s[3])): return True
     for b in bodies_with_self(p):
         if is_projection(tail_of(b)): return True
     for e in p['outs']:
@@ -527,6 +611,10 @@ def avoid_proj_class(p):
             return ('if', map_tail(w, s[1]), map_tail(w, s[2]), map_tail(w, s[3]))
         if s[0] == 'lam' and is_projection(tail_of(s[2])):
             return ('lam', s[1], map_tail(wrap0, s[2]))
+        if s[0] == 'match' and any(is_projection(tail_of(b)) for _, b in s[2]):
+            return ('match', s[1], [(m, map_tail(w, b)) for m, b in s[2]])
+        if s[0] == 'con' and s[3] is not None and is_projection(tail_of(s[3])):
+            return ('con', s[1], s[2], map_tail(w, s[3]))
         return s
     q = dict(p)
     q['globals'] = []
@@ -560,6 +648,139 @@ def known_classes(p):
             for s in subexprs(b):
                 if s[0] == 'app' and s[1][0] == 'var' and s[1][1] in gpat: cls.add("W7")
                 if s[0] == 'pipe' and s[2][0] == 'var' and s[2][1] in gpat: cls.add("W7")
+    return cls
+
+
+# ---- match: the compiler's arm selection against first-match order (findings M1 M2 M3) ----
+def _mcell(m):
+    """PatternCell of mirgen.rs match_pattern_to_cell"""
+    if m[0] == 'ml': return ('L', m[1])
+    if m[0] == 'mc': return ('C', m[2], m[3] is not None)
+    if m[0] == 'mt': return ('T',)
+    return ('W',)
+
+
+def _dtree(matrix, cols):
+    """mirgen.rs build_decision_tree; matrix = [(cells, arm index)]"""
+    if not matrix:
+        return ('fail',)
+    pos = None
+    for i, c in enumerate(cols):
+        if any(c < len(cells) and cells[c][0] in ('L', 'C') for cells, _ in matrix):
+            pos = i
+            break
+    if pos is None:
+        return ('leaf', matrix[0][1])
+    c = cols[pos]
+    concrete, wild = {}, []
+    for cells, ai in matrix:
+        if c < len(cells) and cells[c][0] in ('L', 'C'):
+            concrete.setdefault(cells[c][1], []).append((cells, ai))
+        else:
+            wild.append((cells, ai))
+    cases = []
+    for key in sorted(concrete):
+        rows = []
+        for cells, ai in concrete[key]:
+            cells = list(cells)
+            cells[c] = ('P',) if (cells[c][0] == 'C' and cells[c][2]) else ('W',)
+            rows.append((cells, ai))
+        cases.append((key, _dtree(rows + wild, cols)))
+    default = _dtree(wild, cols[:pos] + cols[pos + 1:]) if wild else None
+    return ('switch', c, cases, default)
+
+
+def _dtree_eval(t, vals):
+    while True:
+        if t is None or t[0] == 'fail': return None
+        if t[0] == 'leaf': return t[1]
+        nxt = t[3]
+        for key, sub in t[2]:
+            if key == vals[t[1]]:
+                nxt = sub
+                break
+        t = nxt
+
+
+def _dtree_leaves(t, acc):
+    if t is None or t[0] == 'fail': return
+    if t[0] == 'leaf':
+        acc[t[1]] = acc.get(t[1], 0) + 1
+        return
+    for _, sub in t[2]: _dtree_leaves(sub, acc)
+    _dtree_leaves(t[3], acc)
+
+
+def _mtest(m, v):
+    """Lmmx.Syntax.mtest on abstract values (numbers / tags; tuples of them)"""
+    if m[0] == 'mw': return True
+    if m[0] == 'ml': return v == m[1]
+    if m[0] == 'mc': return v == m[2]
+    if m[0] == 'mt': return all(_mtest(x, y) for x, y in zip(m[1], v))
+    return False
+
+
+def match_selection(pats, sumtys, ncols=None):
+    """The arm the real compiler selects (mirgen.rs eval_match: literal arms through a switch, the FIRST `_` arm as default;
+    eval_union_match: the same on the tag; eval_tuple_match: decision tree) against first-match order (the reference), on
+    one representative of every class of scrutinee values.  `sumtys`: tid -> constructor payload list.
+    -> first_match_everywhere: both agree on every value;  vm_wasm_differ: two arms for the same literal / constructor (the
+       VM's jump table keeps the last, WASM's the first);  no_arm: some value matches no arm;  copies: per arm, how often
+       the compiler compiles its body (each copy has its own state cells)."""
+    import itertools
+    n = len(pats)
+    is_tuple = any(m[0] == 'mt' for m in pats)
+    def domain(cells):
+        tids = {m[1] for m in cells if m[0] == 'mc'}
+        if tids:
+            return list(range(max(len(sumtys.get(t, [])) for t in tids)))
+        lits = sorted({m[1] for m in cells if m[0] == 'ml'})
+        return lits + [(max(lits) + 1) if lits else 0]
+    res = {"first_match_everywhere": True, "vm_wasm_differ": False, "no_arm": False, "copies": [1] * n}
+    if is_tuple:
+        k = ncols or max(len(m[1]) for m in pats if m[0] == 'mt')
+        rows = [([_mcell(x) for x in m[1]] if m[0] == 'mt' else [('W',)] * k, i) for i, m in enumerate(pats)]
+        tree = _dtree(rows, list(range(k)))
+        acc = {}
+        _dtree_leaves(tree, acc)
+        res["copies"] = [acc.get(i, 0) for i in range(n)]
+        doms = [domain([m[1][c] for m in pats if m[0] == 'mt' and c < len(m[1])]) for c in range(k)]
+        for vals in itertools.product(*doms):
+            fm = next((i for i, m in enumerate(pats) if (_mtest(m, vals) if m[0] == 'mt' else m[0] == 'mw')), None)
+            if fm is None: res["no_arm"] = True
+            if _dtree_eval(tree, vals) != fm: res["first_match_everywhere"] = False
+        return res
+    keyed = [(m[1] if m[0] == 'ml' else m[2], i) for i, m in enumerate(pats) if m[0] in ('ml', 'mc')]
+    default = next((i for i, m in enumerate(pats) if m[0] == 'mw'), None)
+    res["copies"] = [1 if (m[0] in ('ml', 'mc') or i == default) else 0 for i, m in enumerate(pats)]
+    for v in domain(pats):
+        fm = next((i for i, m in enumerate(pats) if _mtest(m, v)), None)
+        if fm is None: res["no_arm"] = True
+        hits = [i for key, i in keyed if key == v]
+        first, last = (hits[0], hits[-1]) if hits else (default, default)
+        if first != last: res["vm_wasm_differ"] = True
+        if first != fm: res["first_match_everywhere"] = False
+    return res
+
+
+def is_stateful_expr(b, funs):
+    """syntactic: the expression contains a stateful construct or a direct call of a named function (which may be stateful)"""
+    return any(x[0] in ('mem', 'delay', 'self', 'selfs') or (x[0] in ('app', 'cnamed') and (x[1] in funs if x[0] == 'cnamed' else (x[1][0] == 'var' and x[1][1] in funs)))
+               or (x[0] == 'pipe' and x[2][0] == 'var' and x[2][1] in funs) for x in subexprs(b))
+
+
+def match_classes(p):
+    cls = set()
+    sumtys = dict(p.get('types', []))
+    funs = set(fun_ids(p))
+    for b in all_bodies(p):
+        for s in subexprs(b):
+            if s[0] != 'match': continue
+            pats = [m for m, _ in s[2]]
+            sel = match_selection(pats, sumtys, len(s[1][1]) if s[1][0] == 'tup' else None)
+            if not sel["first_match_everywhere"]: cls.add("M1")
+            if sel["vm_wasm_differ"]: cls.add("M3")
+            if any(c >= 2 and is_stateful_expr(body, funs) for c, (_, body) in zip(sel["copies"], s[2])): cls.add("M2")
     return cls
 
 
@@ -656,7 +877,7 @@ def v1_class(p):
         for x, t, _ in g[2]:
             if seen_multi:
                 later.add(x)
-            if isinstance(t, (tuple, list)) and t[0] in ('T', 'R'):
+            if isinstance(t, (tuple, list)) and t[0] in ('T', 'R', 'S'):
                 seen_multi = True
         if not later:
             continue
@@ -705,3 +926,132 @@ def known_classes(p):
                 if s[0] == 'app' and any(a[0] == 'var' and a[1] in sus for a in [s[1]] + list(s[2])): cls.add("W7")
                 if s[0] == 'pipe' and s[2][0] == 'var' and s[2][1] in sus: cls.add("W7")
     return cls
+
+
+def lambda_returns_sum_self(p):
+    """W10 (WASM): a lambda whose result is its own `self`, of a sum type (directly or as the value of an if / match arm)"""
+    def tails(e):
+        e = tail_of(e)
+        if e[0] == 'if': return tails(e[2]) + tails(e[3])
+        if e[0] == 'match': return [t for _, b in e[2] for t in tails(b)]
+        return [e]
+    for b in all_bodies(p):
+        for l in subexprs(b):
+            if l[0] == 'lam' and any(t[0] == 'selfs' and t[1] != 'N' and t[1][0] == 'ss' for t in tails(l[2])):
+                return True
+    return False
+
+
+def tuple_match_binder_classes(p):
+    """M5 (both): a constructor pattern inside a tuple pattern whose payload pattern nests a tuple pattern that binds variables;
+    W11 (WASM): a lambda mentions a variable bound by a constructor pattern inside a tuple pattern"""
+    cls = set()
+    def nested_vars(q, depth):
+        if q[0] != 'pt': return False
+        if depth >= 1 and pat_vars(q): return True
+        return any(nested_vars(x, depth + 1) for x in q[1])
+    for b in all_bodies(p):
+        for s in subexprs(b):
+            if s[0] != 'match': continue
+            for m, body in s[2]:
+                if m[0] != 'mt': continue
+                bound = set()
+                for c in m[1]:
+                    if c[0] == 'mc' and c[3] is not None:
+                        bound.update(pat_vars(c[3]))
+                        if nested_vars(c[3], 0): cls.add("M5")
+                if bound:
+                    for l in subexprs(body):
+                        if l[0] == 'lam' and (mentions(l[2]) & bound): cls.add("W11")
+    return cls
+
+
+def self_pattern_var_in_literal(p):
+    """W12 (WASM): in a lambda, a variable bound by a pattern on the lambda's wide `self` is directly a component of a tuple /
+    record literal"""
+    for b in all_bodies(p):
+        for l in subexprs(b):
+            if l[0] != 'lam': continue
+            bound = set()
+            for s in subexprs(l[2]):
+                if s[0] == 'let' and s[2][0] == 'selfs' and s[1][0] in ('pt', 'pr'):
+                    bound.update(pat_vars(s[1]))
+            if not bound: continue
+            for s in subexprs(l[2]):
+                comps = [a for a in s[1]] if s[0] == 'tup' else ([a for _, a in s[1]] if s[0] == 'rec' else [])
+                if any(a[0] == 'var' and a[1] in bound for a in comps):
+                    return True
+    return False
+
+
+def global_match_classes(p):
+    """MG: a match with a payload-binding constructor pattern evaluated at GLOBAL scope (in a top-level `let` initialiser; code
+    inside lambda bodies written there does not count: it is compiled as a function)"""
+    cls = set()
+    def top_level(e):
+        yield e
+        if e[0] == 'lam':
+            return
+        import lmmx_shrink
+        for c in lmmx_shrink.children(e):
+            yield from top_level(c)
+    for g in p['globals']:
+        if g[0] != 'glet': continue
+        for s in top_level(g[2]):
+            if s[0] != 'match': continue
+            if any(mpat_vars(m) for m, _ in s[2]): cls.add("MG")
+    return cls
+
+
+_known_classes_v1 = known_classes
+
+
+def known_classes(p):
+    return _known_classes_v1(p) | match_classes(p) | global_match_classes(p) | ({"W10"} if lambda_returns_sum_self(p) else set()) | tuple_match_binder_classes(p) | ({"W12"} if self_pattern_var_in_literal(p) else set())
+
+
+# ---- C03/F66 (VM): GetUpValue of an open upvalue into a register above the stack top reads freed memory ----
+BRANCHES = ("Jmp", "JmpIfNeg", "JmpTable")
+
+
+def written_regs(ins):
+    """registers an instruction writes (destination first operand conventions of vm/bytecode.rs), as a range"""
+    op = ins[0]
+    if op in BRANCHES or op in ("SetState", "SetGlobal", "PushStatePos", "PopStatePos", "Return", "Return0", "SetUpValue", "Close",
+                                "CloseHeapClosure", "Delay", "Mem", "Dummy") or len(ins) < 2:
+        return range(0, 0)
+    n = ins[3] if op in ("MoveRange", "GetGlobal", "GetUpValue") and len(ins) > 3 else (ins[2] if op == "GetState" and len(ins) > 2 else 1)
+    return range(ins[1], ins[1] + max(int(n), 1))
+
+
+def upvalue_read_above_frame(prog):
+    """does some function read an upvalue into a register above everything the instructions that certainly ran before it
+    have written (the entry block and the instruction's own block)?  The VM's value stack is one Vec for all frames; a write
+    above its top grows it, and GetUpValue of an OPEN upvalue holds a slice into the old buffer while it grows (finding
+    C03/F66: garbage at the first execution, allocator dependent).  Approximates the verified bytecode verifier's alias check
+    (checks/bvm_part.py) from above: it flags at least the instructions the verifier rejects for this reason."""
+    for f in prog.get("funs", []):
+        code = f["code"]
+        first_branch = next((i for i, c in enumerate(code) if c[0] in BRANCHES), len(code))
+        targets = set()
+        for i, c in enumerate(code):
+            if c[0] == "Jmp": targets.add(i + c[1])
+            if c[0] == "JmpIfNeg": targets.add(i + c[2])
+            if c[0] == "JmpTable":
+                for jt in f.get("jump_tables", []):
+                    targets.update(i + o for o in jt["offsets"])
+        hw_entry = f.get("pwords") or f.get("nparam") or 0
+        for i in range(first_branch):
+            w = written_regs(code[i])
+            if len(w): hw_entry = max(hw_entry, w[-1] + 1)
+        hw = hw_entry
+        for i, c in enumerate(code):
+            if i >= first_branch and (i in targets or code[i - 1][0] in BRANCHES):
+                hw = hw_entry                       # a new block: only the entry block certainly ran
+            if c[0] == "GetUpValue" and i >= first_branch:
+                w = written_regs(c)
+                if len(w) and w[-1] + 1 > hw:
+                    return True
+            w = written_regs(c)
+            if len(w) and i >= first_branch: hw = max(hw, w[-1] + 1)
+    return False
